@@ -294,13 +294,37 @@ func discharge(checks []*Check, o dischargeOpts) (obls []*Obligation, covers map
 	results := make([]*Instance, len(uniq))
 	var wg sync.WaitGroup
 	sem := make(chan struct{}, o.jobs)
+	// an obligation is failed by one instance: once an instance has a counterexample, or three instances stay
+	// undecided after the whole ladder, the remaining instances of that obligation are not attempted (a failing run
+	// would otherwise climb the ladder for every path). Passing runs are unaffected.
+	var fmu sync.Mutex
+	satSeen := map[string]bool{}
+	undecided := map[string]int{}
 	for i, c := range uniq {
 		wg.Add(1)
 		sem <- struct{}{}
 		go func(i int, c *Check) {
 			defer wg.Done()
 			defer func() { <-sem }()
+			if !c.Cover && !o.thorough {
+				fmu.Lock()
+				skip := satSeen[c.Name] || undecided[c.Name] >= 3
+				fmu.Unlock()
+				if skip {
+					results[i] = &Instance{Check: c, Result: SolverResult{Status: "skipped", Solver: "-"}}
+					return
+				}
+			}
 			results[i] = solveOne(c, o)
+			if !c.Cover && results[i].Result.Status != "unsat" {
+				fmu.Lock()
+				if results[i].Result.Status == "sat" {
+					satSeen[c.Name] = true
+				} else {
+					undecided[c.Name]++
+				}
+				fmu.Unlock()
+			}
 		}(i, c)
 	}
 	wg.Wait()
@@ -332,11 +356,15 @@ func discharge(checks []*Check, o dischargeOpts) (obls []*Obligation, covers map
 	}
 	for _, ob := range obls {
 		ob.Status = "discharged"
+		var skipped *Instance
 		for _, in := range ob.Instances {
 			ob.Secs += in.Result.Secs
 			switch in.Result.Status {
 			case "unsat":
 				ob.Backends[in.Result.Solver]++
+			case "skipped":
+				// not attempted because another instance of this obligation had already failed
+				skipped = in
 			case "sat":
 				if ob.Status != "failed" {
 					ob.Status = "failed"
@@ -349,9 +377,18 @@ func discharge(checks []*Check, o dischargeOpts) (obls []*Obligation, covers map
 				}
 			}
 		}
+		neverDischargedWithSkips(ob, skipped)
 	}
 	sort.Slice(obls, func(i, j int) bool { return obls[i].Name < obls[j].Name })
 	return
+}
+
+// (an obligation never counts as discharged with an instance that was not attempted)
+func neverDischargedWithSkips(ob *Obligation, skipped *Instance) {
+	if skipped != nil && ob.Status == "discharged" {
+		ob.Status = "unknown"
+		ob.Fail = skipped
+	}
 }
 
 func fmtSecs(d time.Duration) string { return fmt.Sprintf("%.2f", d.Seconds()) }
